@@ -55,7 +55,7 @@ def run(shard):
     import hashlib
     import json
     import hcommon as H
-    cdm = H.import_repo()
+    cdm = H.import_repo(json_only=shard["role"] != "produce")
     CodeData = cdm.CodeData
 
     def md5(s):
